@@ -22,9 +22,7 @@ REPO = os.environ.get("VERIF_REPO", "/repo")
 LEAN = os.path.join(VERIF, "lean")
 WORK = os.path.join(VERIF, "work")
 GENERATED = os.path.join(LEAN, "NGF", "Generated")
-HARNESS_BIN = os.path.join(VERIF, "harness", "bin", "ngfharness")
 TRANSLATOR_BIN = os.path.join(VERIF, "translator", "bin", "translator")
-DRIVER_BIN = os.path.join(LEAN, ".lake", "build", "bin", "ngfdriver")
 ALLOWED_AXIOMS = {"propext", "Classical.choice", "Quot.sound"}
 FORBIDDEN_RE = re.compile(
     r"\bsorry\b|\badmit\b|^axiom\s|native_decide|bv_decide|implemented_by|\bunsafe\s|maxHeartbeats\s+0")
@@ -109,54 +107,78 @@ class Ctx:
     def log(self, msg):
         print(f"[{self.prop}] {msg}", file=sys.stderr, flush=True)
 
-    def prepare(self, need_harness=True, need_driver=True):
-        """Rebuild everything that depends on /repo's working tree."""
-        with Lock("build"):
-            # translator
+    def prepare(self, harness=None, driver=None):
+        """Rebuild everything that depends on /repo's working tree.
+        harness: list of harness commands (directories under harness/cmd) to build, default [<prop>];
+        driver: list of Lean driver ids (files NGF/Driver/<ID>.lean), default [<PROP>]."""
+        harness = [self.prop.lower()] if harness is None else harness
+        driver = [self.prop] if driver is None else driver
+        self.bindir = os.path.join(WORK, "bin", f"{self.prop}-{os.getpid()}")
+        os.makedirs(self.bindir, exist_ok=True)
+        import atexit
+        import shutil
+        atexit.register(lambda: shutil.rmtree(self.bindir, ignore_errors=True))
+        with Lock("translator"):
             rc, out, err = sh(["go", "build", "-o", TRANSLATOR_BIN, "."],
                               cwd=os.path.join(VERIF, "translator"), env=GOENV)
             if rc != 0:
-                raise SystemExit(f"translator does not build:\n{err}")
+                raise SystemExit(f"translator does not build (framework error):\n{err}")
             rc, out, err = sh([TRANSLATOR_BIN, "-repo", REPO, "-out", GENERATED])
             if rc not in (0, 3):
-                raise SystemExit(f"translator crashed:\n{err}")
+                raise SystemExit(f"translator crashed (framework error):\n{err}")
             self.translator_errors = [l for l in err.splitlines() if l.strip()]
             try:
                 self.facts = json.load(open(os.path.join(GENERATED, "facts.json")))
             except Exception:
                 self.facts = {}
-            if need_harness:
-                self.harness_ok = self._build_harness()
-            if need_driver:
+        self.harness_ok = True
+        for h in harness:
+            if not self._build_harness(h):
+                self.harness_ok = False
+        if driver:
+            with Lock("build"):
                 sh([sys.executable, os.path.join(LEAN, "gen_driver.py")])
-                rc, out, err = sh(["lake", "build", "ngfdriver"], cwd=LEAN)
-                if rc != 0:
-                    raise SystemExit(f"Lean driver does not build (framework error):\n{out}\n{err}")
+                rc, out, err = sh(["lake", "build"] + [f"ngfdriver_{d}" for d in driver], cwd=LEAN)
+            if rc != 0:
+                raise SystemExit(f"Lean driver does not build (framework error):\n{out}\n{err}")
 
-    def _build_harness(self):
+    def _harness_mod(self):
+        """go.mod/go.sum/overlay for the harness, pointing at REPO (default /repo)."""
         hdir = os.path.join(VERIF, "harness")
-        # go.sum of the harness = the repository's (plus the extra sums committed in harness/extra.sum)
-        try:
-            base = open(os.path.join(REPO, "go.sum")).read()
-            extra_p = os.path.join(hdir, "extra.sum")
-            extra = open(extra_p).read() if os.path.exists(extra_p) else ""
-            want = base + extra
-            cur_p = os.path.join(hdir, "go.sum")
-            if not os.path.exists(cur_p) or open(cur_p).read() != want:
-                open(cur_p, "w").write(want)
-        except OSError:
-            pass
-        if os.path.exists(HARNESS_BIN):
-            os.remove(HARNESS_BIN)
-        overlay = os.path.join(VERIF, "overlay", "overlay.json")
-        cmd = ["go", "build", "-tags", "verif"]
-        if os.path.exists(overlay):
-            cmd += ["-overlay", overlay]
-        cmd += ["-o", HARNESS_BIN, "."]
+        tag = hashlib.sha1(REPO.encode()).hexdigest()[:8]
+        mod = os.path.join(WORK, f"harness-{tag}.mod")
+        base = open(os.path.join(hdir, "go.mod")).read().replace("=> /repo", "=> " + REPO)
+        sums = open(os.path.join(REPO, "go.sum")).read()
+        extra_p = os.path.join(hdir, "extra.sum")
+        if os.path.exists(extra_p):
+            sums += open(extra_p).read()
+        for path, want in ((mod, base), (mod[:-4] + ".sum", sums)):
+            if not os.path.exists(path) or open(path).read() != want:
+                open(path, "w").write(want)
+        # overlay: every file under /verif/overlay/<rel> is injected at REPO/<rel>
+        odir = os.path.join(VERIF, "overlay")
+        repl = {}
+        for root, _, files in os.walk(odir):
+            for fn in files:
+                if fn.endswith(".go"):
+                    full = os.path.join(root, fn)
+                    repl[os.path.join(REPO, os.path.relpath(full, odir))] = full
+        ov = os.path.join(WORK, f"overlay-{tag}.json")
+        want = json.dumps({"Replace": repl}, indent=1, sort_keys=True)
+        if not os.path.exists(ov) or open(ov).read() != want:
+            open(ov, "w").write(want)
+        return mod, ov
+
+    def _build_harness(self, name):
+        hdir = os.path.join(VERIF, "harness")
+        with Lock("harnessmod"):
+            mod, ov = self._harness_mod()
+        out_bin = os.path.join(self.bindir, name)
+        cmd = ["go", "build", "-tags", "verif", "-modfile", mod, "-overlay", ov, "-o", out_bin, "./cmd/" + name]
         rc, out, err = sh(cmd, cwd=hdir, env=GOENV)
         if rc != 0:
-            self.build_errors.append("harness: " + err[-4000:])
-            self.log("harness build FAILED:\n" + err[-2000:])
+            self.build_errors.append(f"harness {name}: " + err[-4000:])
+            self.log(f"harness {name} build FAILED:\n" + err[-2000:])
             return False
         return True
 
@@ -261,22 +283,34 @@ class Ctx:
         return True
 
     # ----------------------------------------------------------- running code
-    def harness(self, args, timeout=3600, input=None, env=None):
-        if not getattr(self, "harness_ok", False):
+    def harness(self, args, timeout=3600, input=None, env=None, cmd=None):
+        """Run harness command `cmd` (default: this property's) with args; returns stdout lines or None."""
+        cmd = cmd or self.prop.lower()
+        binp = os.path.join(self.bindir, cmd)
+        if not os.path.exists(binp):
             return None
         e = dict(os.environ)
         e.setdefault("GOMEMLIMIT", "8GiB")
+        e["VERIF_REPO"] = REPO
         if env:
             e.update(env)
-        rc, out, err = sh([HARNESS_BIN] + [str(a) for a in args], timeout=timeout, input=input, env=e)
+        try:
+            rc, out, err = sh([binp] + [str(a) for a in args], timeout=timeout, input=input, env=e)
+        except subprocess.TimeoutExpired:
+            self.log(f"harness {cmd} {args} timed out after {timeout}s")
+            self.harness_rc, self.harness_err = -1, "timeout"
+            return None
+        self.harness_rc, self.harness_err = rc, err[-4000:]
         if rc != 0:
-            self.log(f"harness {args} exited {rc}: {err[-1500:]}")
-            self.harness_rc = rc
-            self.harness_err = err[-4000:]
+            self.log(f"harness {cmd} {args} exited {rc}: {err[-1500:]}")
         return out.splitlines()
 
-    def driver(self, prop, mode, lines, timeout=3600):
-        rc, out, err = sh([DRIVER_BIN, prop, mode], input="\n".join(lines) + ("\n" if lines else ""),
+    def driver(self, mode, lines, timeout=3600, prop=None):
+        """Pipe lines through the Lean driver `ngfdriver_<prop> <mode…>`; one answer per line."""
+        prop = prop or self.prop
+        binp = os.path.join(LEAN, ".lake", "build", "bin", f"ngfdriver_{prop}")
+        modes = mode if isinstance(mode, (list, tuple)) else [mode]
+        rc, out, err = sh([binp] + list(modes), input="\n".join(lines) + ("\n" if lines else ""),
                           timeout=timeout)
         if rc != 0:
             raise SystemExit(f"Lean driver failed (framework error): {err[-2000:]}")
